@@ -89,12 +89,43 @@ CHECKS.update({
             "pre-states enumerated through the solver; z3"),
 })
 
+CHECKS.update({
+    "C06": ("the real prefix-tree construction, candidate search, layer decoding and DiagService.decode_message run on "
+            "real layer/service objects whose coding objects are ghosts (constant prefix from an alphabet with empty, "
+            "shared and nested prefixes; abstract decoding outcome); obligation: the reported set = exactly the "
+            "services with a matching coding object or applicable global negative response, DecodeError iff none. One "
+            "open finding (services without constant prefix are never found) is listed in known_findings.json.",
+            "pre/postcondition of DiagLayer.decode / DiagService.decode_message against a declarative attribution "
+            "specification, children by interface contract; message symbolic; z3"),
+    "C09": ("the real _compute_available_objects (recursive) and priority sort run on real HierarchyElement/DiagLayer "
+            "objects carrying ghost raw data; whole-view postcondition against the ISO 22901-1 7.3.2.4 rule written "
+            "declaratively per short name; frame obligation: no layer is altered, a parent's own view is unchanged.",
+            "whole-view postcondition + frame condition of the value-inheritance function; presence, equality and "
+            "NOT-INHERITED flags symbolic, hierarchy shapes enumerated; z3"),
+    "C14": ("the real VariantMatcher (request_loop generator driven through a consumer hook, evaluate, cache handling, "
+            "_ident_response_matches) runs over ghost patterns/parameters/services with symbolic match facts and a "
+            "deterministic ECU; postcondition: first candidate in list order with a fully matching pattern, same "
+            "outcome with and without cache, only candidates' requests, no request twice with the cache; "
+            "MatchingParameter.matches on concrete value shapes.",
+            "postcondition of the matcher against a declarative first-match specification with symbolic match facts; z3"),
+    "C15": ("the real _compute_available_commmunication_parameters (whole-map postcondition keyed by specification id "
+            "and protocol), get_comparam (protocol-specific before generic), ComparamInstance.get_value/get_subvalue "
+            "(defaults of the specification) and ten typed accessors (numeric content of the comparam the ISO tables "
+            "name).",
+            "whole-map postcondition of comparam inheritance + contracts of lookup and accessors; presence symbolic; z3"),
+    "C18": ("Comparison.compare_diagnostic_layers / compare_services / compare_parameters: identity reports nothing and "
+            "a single add / delete / rename / parameter change is reported as exactly that for exactly that service; "
+            "compare_parameters lists exactly the differing attributes (including changes of the linked DOP object); "
+            "print_dl_metrics reports the actual counts (rich table as ghost rows).",
+            "postconditions of the comparison functions for single edits; z3 / concrete evaluation through the interpreter"),
+})
+
 NOT_APPLICABLE = {
     "C11": "PDX write->load round trip is a property of Jinja2 template text plus the ElementTree infoset; neither is "
            "Python code on which a contract can be stated or from which a VC can be generated (DESIGN.md 5 C11)",
 }
-BOUNDED_ONLY = {"C16"}
-PENDING = ["C06", "C09", "C14", "C15", "C18"]
+BOUNDED_ONLY = {"C16", "C06", "C09"}
+PENDING = []
 
 
 def main():
@@ -139,7 +170,7 @@ def main():
         }],
         "checks": checks,
         "not_applicable": sorted(na, key=lambda x: x["property_id"]),
-        "notes": "known_findings.json lists the genuine defects found (all repaired by fix: commits so far).",
+        "notes": "known_findings.json lists the genuine defects found: repaired ones (fix: commits) and one open finding (C06, services without constant prefix).",
     }
     with open(os.path.join(ROOT, "MANIFEST.json"), "w") as f:
         json.dump(m, f, indent=1)
